@@ -1,3 +1,4 @@
+import MpsProps.Anchors.C13
 import MpsProofs.OTBits
 import MpsProofs.OTRandom
 import MpsProofs.OTClmul
